@@ -191,6 +191,10 @@ def cond_atom(fn, eid):
         if x["k"] == "call" and x.get("cn") == "__builtin_expect":
             eid = x["args"][0]
             continue
+        if x["k"] == "binop" and x["op"] in ("||", "&&"):
+            # the block that ends an `a || b` / `a && b` condition evaluated only the right operand
+            eid = x["rhs"]
+            continue
         break
     return eid, pol
 
